@@ -6,7 +6,8 @@ every module compiled from the program set, all reachable abstract states
 contract is checked in each (join consistency, slot/constant/capture/cache index
 ranges, depth never below the frame base, peak <= max_slots, >= 1 value at Return
 and no live handler, jump targets on instruction boundaries, PushHandler records
-exactly the live depth). Binding to the implementation: the same programs are
+exactly the live depth). At run time (checked build) every stack access is asserted to stay inside the slots
+reserved for the fiber; such an assertion failing is a violation. Binding to the implementation: the same programs are
 executed with the per-instruction trace hook (H7); every recorded
 (function, pc, runtime depth, live handlers) point must be a state the abstract
 machine computed for that pc.
@@ -22,7 +23,7 @@ class C06(Check):
     rule = ("program set = corpus (fixtures + feature programs) + control-flow skeleton space (chains of <= D nested constructs from "
             "{if, if/else(then|else), while, for, try, catch, lambda} x 8 terminal actions x {0,1,2} locals per level x 6 stack-perturbing "
             "prefixes x {0,1,3} parameters; D=2 quick, 3 thorough) + opcode-prefix space (one statement per stack-affecting construct of the language - 47 of them, "
-            "covering every instruction the compiler emits inside a method - singly x {before, inside} a try x 4 raise kinds, and all ordered pairs) + boundary programs; per function: exhaustive abstract exploration; "
+            "covering every instruction the compiler emits inside a method - singly x {before, inside} a try x 4 raise kinds, and all ordered pairs) + boundary programs + hook-call failures (9 callback-running natives x 6 callbacks (wrong arity, raising, fine) x 0-6 locals x 4 recursion depths: the VM-raised error at every fill level of the stack); per function: exhaustive abstract exploration; "
             "non-trivial = function with at least one branch or handler")
     assumptions = ["stack effects and operand layouts in vlib/bcv.py are written independently of the compiler's stack_effect table; opcode numbering is read from the real ByteCode enum",
                    "the property's 'exactly one value at each return' is checked as: depth >= frame base + 1 and no live handler (the number of locals in scope is not recoverable from bytecode)",
@@ -41,6 +42,8 @@ class C06(Check):
             yield ("opc", s)
         for name, src in boundary():
             yield ("bound", name, src)
+        for spec in hookerr():
+            yield spec
 
     def describe(self, spec):
         if spec[0] == "corpus":
@@ -49,7 +52,7 @@ class C06(Check):
             return "ctl %s" % (spec[1],)
         if spec[0] == "opc":
             return "opcode-prefix %s: %s" % (spec[1], " ".join(spaces.OPCODE_PREFIXES[i] for i in spec[1][0])[:200])
-        return "bound " + spec[1]
+        return "%s %s" % (spec[0] if spec[0] == "hookerr" else "bound", spec[1])
 
     def build(self, spec):
         base = {"dump": True, "trace": True, "step_limit": 1500000}
@@ -64,6 +67,9 @@ class C06(Check):
 
     def judge(self, spec, ctx, rs):
         r = rs[0]
+        if r.get("class") == "panic" and ("index past the end of the slice" in (r.get("panic") or "") or "before the start of the slice" in (r.get("panic") or "")) and "fiber/mod.rs" in (r.get("panic") or ""):
+            # the checked build asserts that every stack access stays inside the fiber's reserved slots
+            return Verdict(False, True, "stack-bounds", "a stack access left the slots reserved for the fiber: %s" % r.get("panic"))
         if r.get("class") in ("panic", "signal", "timeout") and not r.get("dump"):
             if r.get("class") == "panic" and "slots >= 0" in (r.get("panic") or ""):
                 return Verdict(False, True, "compiler-assert", "compiler's own stack simulation went negative: %s" % r.get("panic"))
@@ -112,6 +118,26 @@ class C06(Check):
         for nm, c in opseen.items():
             extra["op:" + nm] = c
         return Verdict(True, branching > 0, "ok:" + str(r.get("class")), extra=extra)
+
+
+HOOK_NATIVES = [("each", "xs.iter().each(%s);"), ("map", "xs.iter().map(%s).list();"), ("filter", "xs.iter().filter(%s).first();"), ("reduce", "xs.iter().reduce(0, %s);"),
+                ("all", "xs.iter().all(%s);"), ("any", "xs.iter().any(%s);"), ("sort", "[2, 1].sort(%s);"), ("into", "xs.iter().into(%s);"), ("for_map", "for v in xs.iter().map(%s) { let q = v; }")]
+HOOK_BAD = [("too_many_params", "|a, b, c| a"), ("no_params", "|| 1"), ("raises", "|a| a.nope"), ("fn_two_params", "two"), ("class_with_init_arity", "K"), ("ok", "|a| a")]
+
+
+def hookerr():
+    """a call made by a native through the hook fails (arity of the callback, error inside it) at every fill level of the stack:
+    the slot for the VM-raised error is reserved by nothing but the raise path itself"""
+    out = []
+    for nname, tmpl in HOOK_NATIVES:
+        for bname, cb in HOOK_BAD:
+            for pad in range(0, 7):
+                for depth in (0, 1, 2, 5):
+                    pads = " ".join("let pad%d = %d;" % (k, k) for k in range(pad))
+                    body = "let xs = [10]; %s try { %s } catch e { return 'caught ' + e.cls().name(); } return 'no error';" % (pads, tmpl % cb)
+                    src = ("fn two(a, b) { return a; } class K { init(a, b) { self.a = a; } }\nfn at(d) { if d > 0 { let here = d; return at(d - 1); } %s }\nprint(at(%d));\nprint('done');\n" % (body, depth))
+                    out.append(("hookerr", "%s/%s/pad%d/depth%d" % (nname, bname, pad, depth), src))
+    return out
 
 
 def boundary():
